@@ -526,7 +526,7 @@ Lemma cd_scalar : forall pi fib f d, f_disp fib = DispScalar d None ->
   exists v, chromatic_dispersion pi fib f = Ok v /\ v == d * len_m fib.
 Proof.
   intros pi fib f d Hd Hpi Hf Hr. unfold chromatic_dispersion, beta3, beta2, dispersion_at. rewrite Hd.
-  cbn [bind]. eexists. split; [reflexivity|]. pose proof c_light_nz as Hc. unfold sq. field. auto.
+  cbn [bind]. eexists. split; [reflexivity|]. pose proof c_light_nz as Hc. rewrite !Qred_correct. unfold sq. field. auto.
 Qed.
 
 Definition cd_slope_closed (fib : fiber) (d s f : Q) : Q :=
@@ -539,7 +539,7 @@ Lemma cd_slope : forall pi fib f d s, f_disp fib = DispScalar d (Some s) ->
   exists v, chromatic_dispersion pi fib f = Ok v /\ v == cd_slope_closed fib d s f.
 Proof.
   intros pi fib f d s Hd Hpi Hf Hr. unfold chromatic_dispersion, beta3, beta2, dispersion_at. rewrite Hd.
-  cbn [bind]. eexists. split; [reflexivity|]. pose proof c_light_nz as Hc.
+  cbn [bind]. eexists. split; [reflexivity|]. pose proof c_light_nz as Hc. rewrite !Qred_correct.
   unfold cd_slope_closed, sq, cube. field. auto.
 Qed.
 
@@ -608,7 +608,7 @@ Proof.
   - constructor.
   - destruct alpha as [|a alpha]; destruct cr as [|c cr]; try discriminate Hl; [constructor|].
     unfold zipw. cbn [combine map fst snd]. constructor.
-    + rewrite (dot_zero c P HP), Hxy. ring.
+    + rewrite !Qred_correct, (dot_zero c P HP), Hxy. ring.
     + apply IH. cbn [length] in Hl. lia.
 Qed.
 
@@ -752,10 +752,10 @@ Qed.
 Lemma euler_step_link : forall P P', Forall2 Qeq P P' -> forall dz ll p0 g p alpha cr,
   Forall2 Qeq p (zipw Qmult p0 g) ->
   Forall2 Qeq
-    (map (fun t : Q * (Q * list Q) => let '(pj, (aj, crj)) := t in pj * (1 + (- aj + dot crj P) * dz) * ll)
+    (map (fun t : Q * (Q * list Q) => let '(pj, (aj, crj)) := t in Qred (pj * (1 + (- aj + Qred (dot crj P)) * dz) * ll))
          (combine p (combine alpha cr)))
     (zipw Qmult p0
-       (map (fun t : Q * (Q * list Q) => let '(gj, (aj, crj)) := t in gj * (1 + (- aj + dot crj P') * dz) * ll)
+       (map (fun t : Q * (Q * list Q) => let '(gj, (aj, crj)) := t in Qred (gj * (1 + (- aj + Qred (dot crj P')) * dz) * ll))
             (combine g (combine alpha cr)))).
 Proof.
   intros P P' HP dz ll. induction p0 as [|x p0 IH]; intros g p alpha cr H.
@@ -765,7 +765,7 @@ Proof.
     + unfold zipw in H. cbn [combine map fst snd] in H. inversion H as [|q xy p' l' Hq Ht]; subst.
       destruct alpha as [|a alpha]; [constructor|]. destruct cr as [|c cr]; [constructor|].
       unfold zipw. cbn [combine map fst snd]. constructor.
-      * rewrite Hq, (dot_compat c P P' HP). ring.
+      * rewrite !Qred_correct, Hq, (dot_compat c P P' HP). ring.
       * apply IH. exact Ht.
 Qed.
 
